@@ -155,13 +155,22 @@ def joinSp : List Bytes → Bytes
   | [x] => x
   | x :: xs => x ++ 32 :: joinSp xs
 
-/-- `post_process_block_comment` (lexer.rs:358-371) -/
+/-- one line of `post_process_block_comment`: `stripStar` = the ` * ` decoration star is removed here -/
+def postLine (stripStar : Bool) (line : Bytes) : Bytes :=
+  let l := trimStart line
+  match l with
+  | b :: rest => if stripStar && b.toNat = 42 then trim rest else trimEnd l
+  | [] => []
+
+/-- `post_process_block_comment` (lexer.rs:358-371). Two variants, selected by the translator from the
+source: the star is stripped on every line (original), or only on continuation lines - index > 0 -
+(repair of C09-F9: `/* *kwargs */` keeps its star). -/
 def postProcess (body : Bytes) : Bytes :=
-  joinSp (((splitLines body).map fun line =>
-    let l := trimStart line
-    match l with
-    | b :: rest => if b.toNat = 42 then trim rest else trimEnd l
-    | [] => []).filter (fun l => !l.isEmpty))
+  match splitLines body with
+  | [] => []
+  | first :: rest =>
+    joinSp ((postLine (!commentStarOnlyOnContinuationLines) first :: rest.map (postLine true)).filter
+      (fun l => !l.isEmpty))
 
 /-! ## tokens -/
 
